@@ -18,6 +18,7 @@
                  RFC 7489 6.4 (dmarc-sep = *WSP ";" *WSP), RFC 8461 3.1, RFC 8460 3, RFC 7208 4.6.1 (1*SP between terms)
      eq-ws       whitespace around "=": RFC 7489 6.4 only: WSP is allowed on both sides of "="; RFC 6265 5.2 (attribute-value is trimmed)
      empty       empty list elements: RFC 9110 5.6.1.2 (recipients MUST accept), RFC 6797 6.1 ([ directive ] *( ";" [ directive ] )),
+                 RFC 6265 5.2 (an empty cookie-av has an unrecognised, empty name and is ignored),
                  trailing separator for the DNS TXT policy records (RFC 7489 6.4 [dmarc-sep], RFC 8461 3.1, RFC 8460 3)
      order       directives mapped to named attributes may come in any order: RFC 6797 6.1 (1), RFC 7469 2.1, RFC 9111 5.2,
                  RFC 6265 5.2, RFC 7489 6.3 (after v and p), RFC 8461 3.1 / RFC 8460 3 (after v)
@@ -108,7 +109,7 @@ Allowed(type) ==
     [] type = "expect_staple" -> {"name-case", "ows", "order"}
     [] type = "hpkp"          -> {"name-case", "ows", "empty", "order", "unknown"}
     [] type = "cache_control" -> {"name-case", "ows", "empty", "order", "unknown"}
-    [] type = "set_cookie"    -> {"name-case", "ows", "eq-ws", "order", "unknown"}
+    [] type = "set_cookie"    -> {"name-case", "ows", "eq-ws", "empty", "order", "unknown"}   \* empty: RFC 6265 5.2 ignores an empty cookie-av
     [] type = "content_type"  -> {"name-case", "ows", "quote"}
     [] type = "xxss"          -> {"ows"}
     [] type = "csp"           -> {"name-case", "ows", "empty"}
